@@ -1,4 +1,5 @@
 import Bgpfu.Lemmas.Policy
+import Bgpfu.Model.FetchInstalled
 /-!
 # C02 — installed policies never accept routes outside the evaluated set (no fail-open)
 
@@ -188,3 +189,36 @@ theorem raw_names_stale_cex :
      | .error _ => false) = true := by decide
 
 end Policy
+
+/-! ### the installed reader is fail-closed on route-filters it cannot represent
+
+A `route-filter` whose match type is not `prefix-length-range` (`orlonger`, `exact`, `upto`, …), or
+that holds an element the reader does not know, accepts routes no evaluated set accounts for. The
+event-level reader (`Model/FetchInstalled`, fetch.rs) refuses such a filter — and with it the whole
+read, so nothing is planned (C02 rule `specx`; correspondence family `foreign.raw.*`). It never
+*skips* it: skipping would leave the filter installed while the term is re-asserted. -/
+namespace Xml
+
+/-- a `<choice-ident>` with any text other than `prefix-length-range` fails the read, whatever came
+before it in the filter and whatever follows -/
+theorem routeFilter_other_match_type_fails (fuel : Nat) (endRaw : String) (st : RfSt) (t : Tag)
+    (rest r : List Ev) (s : String)
+    (haddr : (t.is XNM "address" && st.address.isNone) = false)
+    (hid : (t.is XNM "choice-ident" && st.plr.isNone) = true)
+    (hr : readText t rest = .ok (s, r)) (hne : (trim s != "prefix-length-range") = true) :
+    routeFilterLoop (fuel + 1) endRaw st (.start t :: rest) = .error .other := by
+  simp [routeFilterLoop, haddr, hid, hr, hne]
+
+/-- an empty element inside a route-filter (`<orlonger/>`, `<exact/>` …) fails the read -/
+theorem routeFilter_flag_element_fails (fuel : Nat) (endRaw : String) (st : RfSt) (t : Tag) (rest : List Ev) :
+    routeFilterLoop (fuel + 1) endRaw st (.empty t :: rest) = .error .unexpected := by
+  simp [routeFilterLoop]
+
+/-- … as does any start tag that is neither the (first) address nor the (first) choice-ident -/
+theorem routeFilter_unknown_element_fails (fuel : Nat) (endRaw : String) (st : RfSt) (t : Tag) (rest : List Ev)
+    (haddr : (t.is XNM "address" && st.address.isNone) = false)
+    (hid : (t.is XNM "choice-ident" && st.plr.isNone) = false) :
+    routeFilterLoop (fuel + 1) endRaw st (.start t :: rest) = .error .unexpected := by
+  simp [routeFilterLoop, haddr, hid]
+
+end Xml
